@@ -275,4 +275,8 @@ VARIANTS = [
     {'name': 'R1 UDP-ban raise after collect_acks but before the ack', 'expect': 'C19.R1', 'edits': [{'file': 'hippolyzer/lib/client/hippo_client.py', 'old': '        # Only after the ACK bookkeeping, the packet was received even if we won\'t look at the message\n        if not self.message_xml.validate_udp_msg(message.name):\n            LOG.warning(\n                f"Received {message.name!r} over UDP, when it should come over the event queue. Discarding."\n            )\n            raise PermissionError(f"UDPBanned message {message.name}")\n\n', 'new': ''}, {'file': 'hippolyzer/lib/client/hippo_client.py', 'old': '        should_handle = True\n        if message.reliable:\n', 'new': '        # Only after the ACK bookkeeping, the packet was received even if we won\'t look at the message\n        if not self.message_xml.validate_udp_msg(message.name):\n            LOG.warning(\n                f"Received {message.name!r} over UDP, when it should come over the event queue. Discarding."\n            )\n            raise PermissionError(f"UDPBanned message {message.name}")\n\n        should_handle = True\n        if message.reliable:\n'}]},
     {'name': 'P R1 ban check in a helper called after the acks', 'expect': 'silent', 'edits': [{'file': 'hippolyzer/lib/client/hippo_client.py', 'old': '        # Only after the ACK bookkeeping, the packet was received even if we won\'t look at the message\n        if not self.message_xml.validate_udp_msg(message.name):\n            LOG.warning(\n                f"Received {message.name!r} over UDP, when it should come over the event queue. Discarding."\n            )\n            raise PermissionError(f"UDPBanned message {message.name}")\n\n', 'new': '        self._refuse_banned(message)\n\n'}, {'file': 'hippolyzer/lib/client/hippo_client.py', 'old': '    def datagram_received(self, data, source_addr: ADDR_TUPLE):\n', 'new': '    def _refuse_banned(self, message):\n        if not self.message_xml.validate_udp_msg(message.name):\n            raise PermissionError(f"UDPBanned message {message.name}")\n\n    def datagram_received(self, data, source_addr: ADDR_TUPLE):\n'}]},
     {'name': 'R3 ban check helper called before the acks are collected', 'expect': 'C19.R3', 'edits': [{'file': 'hippolyzer/lib/client/hippo_client.py', 'old': '        # Only after the ACK bookkeeping, the packet was received even if we won\'t look at the message\n        if not self.message_xml.validate_udp_msg(message.name):\n            LOG.warning(\n                f"Received {message.name!r} over UDP, when it should come over the event queue. Discarding."\n            )\n            raise PermissionError(f"UDPBanned message {message.name}")\n\n', 'new': ''}, {'file': 'hippolyzer/lib/client/hippo_client.py', 'old': '        region.circuit.collect_acks(message)\n\n        should_handle = True\n', 'new': '        self._refuse_banned(message)\n        region.circuit.collect_acks(message)\n\n        should_handle = True\n'}, {'file': 'hippolyzer/lib/client/hippo_client.py', 'old': '    def datagram_received(self, data, source_addr: ADDR_TUPLE):\n', 'new': '    def _refuse_banned(self, message):\n        if not self.message_xml.validate_udp_msg(message.name):\n            raise PermissionError(f"UDPBanned message {message.name}")\n\n    def datagram_received(self, data, source_addr: ADDR_TUPLE):\n'}]},
+    # ------------------------------------------------------------------ audit round (anchored on the fixed text: inapplicable until the fixes are committed)
+    {'name': 'R5 resend poll gated on is_alive again (audit C19#2 reverted)', 'file': 'hippolyzer/lib/client/hippo_client.py', 'expect': 'C19.R5', 'old': '                if not region.circuit:\n                    continue\n                region.circuit.resend_unacked()\n', 'new': '                if not region.circuit or not region.circuit.is_alive:\n                    continue\n                region.circuit.resend_unacked()\n'},
+    {'name': 'P R5 resend poll skips regions without a circuit (is None spelling)', 'file': 'hippolyzer/lib/client/hippo_client.py', 'expect': 'silent', 'old': '                if not region.circuit:\n                    continue\n                region.circuit.resend_unacked()\n', 'new': '                if region.circuit is None:\n                    continue\n                region.circuit.resend_unacked()\n'},
+    {'name': 'R5 resend clock back to naive local time (audit C05#3 reverted)', 'file': 'hippolyzer/lib/base/message/circuit.py', 'expect': 'C19.R5', 'old': '    return dt.datetime.now(dt.timezone.utc)\n', 'new': '    return dt.datetime.now()\n'},
 ]
